@@ -1,14 +1,15 @@
-SPECIFICATION Spec
+SPECIFICATION FairSpec
 CONSTANTS
   ARC = 1
   MaxFR = 1
-  MaxCalls = 3
-  Algo = "stale"
-  Queued = FALSE
-  Reload = TRUE
+  MaxCalls = 2
+  Algo = "refresh"
+  Queued = TRUE
+  Reload = FALSE
 INVARIANT C02_TrueIffDone
 INVARIANT C02_FalseIffExhausted
 INVARIANT C02_OnlyOwnPayload
 INVARIANT C02_QuietAfterReturn
 INVARIANT C02_PeerOnce
+PROPERTY Termination
 CHECK_DEADLOCK FALSE
